@@ -1,13 +1,15 @@
 //! Finding F12 demonstration: a coroutine that is resumed by Park::subscribe itself (unpark raced with
 //! the registration: fast wake-up) and then finishes while nobody else holds its handle deadlocks the
 //! worker: Park::drop waits for the kernel guard that the nested subscribe frame still holds.
+//! Oracles: the parked coroutine finishes after the unpark; afterwards every worker is still available.
 use mayv::*;
-use std::sync::atomic::{AtomicBool, Ordering};
+use std::sync::atomic::{AtomicBool, AtomicUsize, Ordering};
 use std::sync::Arc;
 
 fn main() {
     let cfg = Config::from_env();
-    run(cfg, |ctx| {
+    let workers = cfg.workers;
+    run(cfg, move |ctx| {
         let done = Arc::new(AtomicBool::new(false));
         let d2 = done.clone();
         let started = Arc::new(AtomicBool::new(false));
@@ -21,9 +23,19 @@ fn main() {
         };
         let co = h.coroutine().clone();
         drop(h); // detached
+        // MAYV_DROP_MODE=race (default): the unpark is issued a seeded number of schedule points after the
+        // coroutine started, so that it lands in the window between the parker's check and subscribe's re-check;
+        // wait: right after the start (the original demonstration)
+        let race = std::env::var("MAYV_DROP_MODE").map(|m| m != "wait").unwrap_or(true);
+        let k = if race { ctx.rand() % 12 } else { 0 };
         let u = ctx.spawn("u", move || {
             while !started.load(Ordering::SeqCst) {
                 mayv::ctx().yield_now();
+            }
+            // a few schedule points of our own (handle clones: atomic operations of the runtime)
+            for _ in 0..k {
+                let c2 = co.clone();
+                drop(c2);
             }
             co.unpark();
             drop(co);
@@ -40,5 +52,34 @@ fn main() {
         }
         // let the runtime settle: the worker must come back to its idle loop
         ctx.sleep_ns(50_000_000);
+        // oracle: every worker is still there.  `workers` probe coroutines each keep their worker busy until all of
+        // them have arrived: that needs all the workers (one spinning for ever in Park::drop is missing)
+        let arrived = Arc::new(AtomicUsize::new(0));
+        let giveup = Arc::new(AtomicBool::new(false));
+        for _ in 0..workers {
+            let (a, g) = (arrived.clone(), giveup.clone());
+            let _ = unsafe {
+                may::coroutine::spawn(move || {
+                    a.fetch_add(1, Ordering::SeqCst);
+                    while a.load(Ordering::SeqCst) < workers && !g.load(Ordering::SeqCst) {
+                        mayv::ctx().yield_now();
+                    }
+                })
+            };
+        }
+        let mut n = 0;
+        while arrived.load(Ordering::SeqCst) < workers {
+            ctx.sleep_ns(1_000_000);
+            n += 1;
+            if n > 300 {
+                ctx.fail(format!(
+                    "worker lost: only {} of {} workers picked up a coroutine after the parked coroutine finished",
+                    arrived.load(Ordering::SeqCst),
+                    workers
+                ));
+                giveup.store(true, Ordering::SeqCst);
+                break;
+            }
+        }
     })
 }
